@@ -29,13 +29,16 @@ class Named(unittest.TestCase):
         return 'impl_c08_use.Named.' + self.name
 
 
-def via_modules(ps, fullnames):
+def via_modules(ps, fullnames, positional=False):
     """-m patterns: which modules does find_suites try to import?"""
     argv = ['prog']
+    tail = []
+    if positional and ps and ps[-1] not in ('', '.') and not ps[-1].startswith('-'):
+        ps, tail = ps[:-1], [ps[-1]]          # the last pattern as the (deprecated) positional MODULE filter
     for p in ps:
         argv += ['-m', p]
     with redirect_stdout(io.StringIO()):
-        options = get_options(argv, [])
+        options = get_options(argv + tail, [])
     options.prefix = [(PREFIX, PKG)]
     rel = [n[len(PKG) + 1:] for n in fullnames]
     tried = []
@@ -53,13 +56,16 @@ def via_modules(ps, fullnames):
     return [n in tried for n in fullnames]
 
 
-def via_tests(ps, fullnames):
+def via_tests(ps, fullnames, positional=False):
     """-t patterns: which tests does tests_from_suite yield?"""
     argv = ['prog']
+    tail = []
+    if positional and ps and ps[-1] not in ('', '.') and not ps[-1].startswith('-'):
+        ps, tail = ps[:-1], ['.', ps[-1]]     # the last pattern as the positional TEST filter (after a MODULE filter of '.')
     for p in ps:
         argv += ['-t', p]
     with redirect_stdout(io.StringIO()):
-        options = get_options(argv, [])
+        options = get_options(argv + tail, [])
     tests = []
     for n in fullnames:
         t = Named()
@@ -74,8 +80,9 @@ cases = json.load(sys.stdin)
 out = []
 for c in cases:
     names = c['names']
-    res = {'pats': via_modules(c['pats'], names), 'pos': via_modules(c['pats'] + [c['xpos']], names),
-           'perm': via_tests(c['perm'], names), 'neg': via_tests(c['pats'] + [c['xneg']], names)}
+    pos = bool(c.get('positional'))
+    res = {'pats': via_modules(c['pats'], names, pos), 'pos': via_modules(c['pats'] + [c['xpos']], names),
+           'perm': via_tests(c['perm'], names, pos), 'neg': via_tests(c['pats'] + [c['xneg']], names)}
     pset = set()
     for p in c['pats'] + c['perm'] + [c['xpos'], c['xneg']]:
         pset.add(p[1:] if p.startswith('!') else p)
